@@ -12,7 +12,7 @@ CONSTANTS
   ClientQCap = 2
   NReq = 2
   SessQCap = 1
-  MaxRounds = 2
+  MaxRounds = 1
 INVARIANTS TypeOK NoStuckStop AfterStopAllReleased
 PROPERTIES StopReturns
 CHECK_DEADLOCK FALSE
